@@ -9,6 +9,9 @@ Tie:  (a) unit chunks  - the REAL handle_get_file_contents on real files of the 
           the deterministic concurrent writer) and the REAL destination doer, against relay + writer of the model;
       (c) e2e - the real CLI (local and both-remote through the fake ssh, i.e. through the real encrypted
           frames) over previous destinations that are absent / shorter / longer / same length.
+Contents: seeded random bytes AND the zero-byte families of chunks_lib.zero_layouts (all-zero, random prefix +
+zero tail, zero prefix + random tail, zero run in the middle, cut at / one off the chunk boundaries; sparse
+multi-MiB files) in every leg - "all byte contents" of the property includes whole chunks of zeros.
 The property oracle is evaluated in python on what the implementation did (chunks_lib.chunks_oracle,
 relay_oracle, byte comparison of the trees)."""
 import os, sys, json, glob, tempfile, shutil, hashlib
@@ -54,6 +57,24 @@ def chunk_items(run, tier, lengths):
     rng = run.rng
     blob = rng.randbytes(max(lengths) if lengths else 0)
     return [(n, blob[:n]) for n in lengths]
+
+
+def zero_chunk_items(run, tier):
+    """The reader on contents with zero runs (whole chunks of zeros, zero tails, sparse files)."""
+    rng = run.rng
+    items = []
+    for n in [1, 4095, 4096, 4097, 8192, 12288, 12289, 28672, 61440, 70000]:
+        lay = cl.zero_layouts(n)
+        pick = lay[:1] + [l for l in lay[1:] if l[0].startswith('zero-tail@%d' % cl.expected_full_read_sizes(n)[0]) or l[0].startswith('zero-middle')][:2]
+        if tier == 'thorough':
+            pick = lay
+        for _, zr in pick:
+            items.append((n, cl.content_bytes(rng.randrange(1, 250), 0, n, zr)))
+    if tier == 'thorough':
+        for n in [1048576 + 1, 4190208, 5 * 1024 * 1024]:
+            items.append((n, bytes(n)))
+            items.append((n, cl.content_bytes(rng.randrange(1, 250), 0, n, [(10000, n)])))
+    return items
 
 
 # (a') short reads: the REAL reader on a FIFO that a writer feeds piecewise (an appender between two reads)
@@ -200,6 +221,63 @@ def gen_relay_cases(run, tier, extended=False):
     return cases
 
 
+def gen_zero_relay_cases(run, tier, extended=False):
+    """The file did not change (listed = actual size) but its bytes contain runs of zeros: every layout of
+    chunks_lib.zero_layouts for the sizes around the ladder sums, over every kind of previous destination;
+    zero contents in short-read style partitions (a last chunk of exactly / just under / just over 4096 zeros)."""
+    rng = run.rng
+    cases, k = [], 0
+    prevs = lambda a: [None, a // 2, a + 1000, a]
+    sizes = [1, 100, 4095, 4096, 4097, 8192, 9096, 12287, 12288, 12289, 28672, 30000]
+    for a in sizes:
+        chunks = cl.full_read_chunks(a)
+        for fam, zr in cl.zero_layouts(a):
+            pv = prevs(a)[k % 4]; k += 1
+            cases.append(cl.RelayCase(a, chunks, prev=pv, seed=rng.randrange(1, 250), kind='zeros:' + fam.split('@')[0],
+                                      prev_newer=(k % 3 == 0), zeros=zr))
+        for pv in prevs(a):      # the all-zero file over every previous destination
+            cases.append(cl.RelayCase(a, chunks, prev=pv, seed=rng.randrange(1, 250), kind='zeros:all-zero', zeros=[(0, a)],
+                                      prev_newer=bool(pv and pv % 2)))
+    big = [70000, 1048576 + 1]
+    if tier == 'thorough' or extended:
+        big += [4190208, 5 * 1024 * 1024, 8384512 + 4096]
+    for a in big:
+        chunks = cl.full_read_chunks(a)
+        sums, s_ = [], 0
+        for sz, _ in chunks:
+            s_ += sz; sums.append(s_)
+        lays = [('all-zero', [(0, a)]), ('zero-tail', [(10000, a)]), ('zero-tail', [(sums[-2], a)]), ('zero-tail', [(sums[-2] + 1, a)]),
+                ('zero-head', [(0, sums[-2])]), ('zero-middle', [(sums[0], sums[-2])])]
+        for fam, zr in lays:
+            pv = prevs(a)[k % 4]; k += 1
+            cases.append(cl.RelayCase(a, chunks, prev=pv, seed=rng.randrange(1, 250), kind='zeros-big:' + fam, zeros=zr))
+    # partitions (short-read style chunk sequences) whose chunks are zeros
+    fixed = [[4096, 4096], [100, 4096], [4096, 100], [4095, 4096], [4096, 4097], [1, 4096, 1], [4096, 8192, 4096], [5000], [4096], [4095],
+             [32, 4096, 32, 4096]]
+    for parts in fixed:
+        total = sum(parts)
+        chunks = [(t, i < len(parts) - 1) for i, t in enumerate(parts)]
+        sums, s_ = [0], 0
+        for t in parts:
+            s_ += t; sums.append(s_)
+        for zr in [[(0, total)], [(sums[-2], total)], [(0, sums[1])]] + ([[(sums[1], sums[-2])]] if len(parts) >= 3 else []):
+            pv = [None, 10, total, total + 77][k % 4]; k += 1
+            cases.append(cl.RelayCase(total, chunks, prev=pv, seed=rng.randrange(1, 250), kind='zeros:partition', zeros=zr))
+    n_rand = 30 if tier == 'quick' and not extended else 300
+    for _ in range(n_rand):
+        parts = [rng.choice([1, 32, 100, 4095, 4096, 4097, 8192]) for _ in range(rng.randint(1, 5))]
+        total = sum(parts)
+        chunks = [(t, i < len(parts) - 1) for i, t in enumerate(parts)]
+        sums, s_ = [0], 0
+        for t in parts:
+            s_ += t; sums.append(s_)
+        a_, b_ = sorted(rng.sample(sums, 2)) if len(sums) > 2 and rng.random() < 0.7 else (rng.choice(sums[:-1]), total)
+        a_ = max(0, a_ + rng.choice([0, 0, 0, 1, -1]))
+        cases.append(cl.RelayCase(total, chunks, prev=rng.choice([None, 10, total, total + 77]), seed=rng.randrange(1, 250),
+                                  kind='zeros:partition-random', zeros=[(a_, b_)]))
+    return cases
+
+
 def run_relay_cases(run, binary, jbin, tmp, cases, label='relay'):
     dests = []
     for i, c in enumerate(cases):
@@ -216,7 +294,7 @@ def run_relay_cases(run, binary, jbin, tmp, cases, label='relay'):
         bad = cl.relay_oracle(c, il)
         rep = dict(c.to_json(), impl=il, model=ml)
         if bad:
-            run.fail('C11 relay: listed %d bytes, chunks %s: %s' % (c.listed, c.spec()[:80], bad), rep)
+            run.fail('C11 relay: listed %d bytes, chunks %s%s: %s' % (c.listed, c.spec()[:80], (', zero bytes at %r' % c.zeros) if c.zeros else '', bad), rep)
         elif il != ml:
             run.broke('correspondence', 'scripted-relay', json.dumps(rep)[:1500])
         try:
@@ -238,7 +316,34 @@ def corpus_cases():
 
 # ------------------------------------------------------------------------------------------------
 # (c) end to end with the real CLI
-def e2e_cases(run, binary, tmp, tier, placements=None, tag=''):
+def e2e_zero_items(run, tier, placement):
+    """Files whose bytes contain runs of zeros, as (length, family, bytes): all-zero files of the lengths around the
+    ladder sums, random prefix + zero tail, zero prefix + random tail, a zero run in the middle, a zero-extended
+    (sparse-looking) file of 1 MiB + 1; thorough: every layout of the small sizes and a 5 MiB all-zero file."""
+    rng = run.rng
+    out = []
+    for n in [1, 100, 4095, 4096, 4097, 8192, 12288, 12289, 28672, 65537]:
+        out.append((n, 'all-zero', bytes(n)))
+    for n in [4097, 8192, 9096, 12288, 12289, 28672, 30000]:
+        lay = cl.zero_layouts(n)[1:]
+        if tier == 'quick':
+            first = cl.expected_full_read_sizes(n)[0]
+            keep = ('zero-tail@%d' % first, 'zero-head@%d' % first, 'zero-tail@%d' % (first + 1), 'zero-middle')
+            lay = [l for l in lay if l[0].startswith(keep)] + [l for l in lay if l[0].startswith('zero-tail')][-3:-1]
+        for fam, zr in lay:
+            out.append((n, fam, cl.content_bytes(rng.randrange(1, 250), 0, n, zr)))
+    n = 1048576 + 1
+    out.append((n, 'zero-extended', cl.content_bytes(rng.randrange(1, 250), 0, n, [(10000, n)])))
+    if tier == 'thorough' or placement == 'LL':
+        out.append((5 * 1024 * 1024, 'sparse-all-zero', bytes(5 * 1024 * 1024)))
+    if tier == 'thorough':
+        n = 8384512 + 4096
+        out.append((n, 'zero-tail-big', cl.content_bytes(rng.randrange(1, 250), 0, n, [(4190208, n)])))
+        out.append((n, 'zero-middle-big', cl.content_bytes(rng.randrange(1, 250), 0, n, [(4096, 8384512)])))
+    return out
+
+
+def e2e_cases(run, binary, tmp, tier, placements=None, tag='', zero_families=True):
     rng = run.rng
     lens = [0, 1, 31, 32, 33, 4095, 4096, 4097, 8192, 12287, 12288, 12289, 28672, 28673, 65537, 1048576 + 3]
     big = [4190208, 4194304 + 1, 5 * 1024 * 1024 + 7] if tier == 'quick' else [4190208, 4190209, 4194304, 4194304 + 1, 8384512, 8384513, 9 * 1024 * 1024 + 11]
@@ -252,9 +357,13 @@ def e2e_cases(run, binary, tmp, tier, placements=None, tag=''):
         os.makedirs(base)
         src_tree, dest_tree = {'': {'k': 'dir'}}, {'': {'k': 'dir'}}
         t0 = 1_500_000_000_000_000_000
-        for i, n in enumerate(ls):
-            name = 'f%02d_%d' % (i, n)
-            src_tree[name] = {'k': 'file', 'data': rng.randbytes(n), 'mtime_ns': t0 + i * 1_000_000_007}
+        # (length, family, bytes): random contents of every length, then the zero-byte families
+        items = [(n, 'random', rng.randbytes(n)) for n in ls]
+        if zero_families:
+            items += e2e_zero_items(run, tier, placement)
+        for i, (n, fam, data) in enumerate(items):
+            name = 'f%02d_%d_%s' % (i, n, fam.replace('@', '_at_'))
+            src_tree[name] = {'k': 'file', 'data': data, 'mtime_ns': t0 + i * 1_000_000_007}
             var = i % 4           # previous destination: absent / shorter / longer / same length, other content
             if var == 1:
                 dest_tree[name] = {'k': 'file', 'data': rng.randbytes(n // 2), 'mtime_ns': t0 - 10 ** 9}
@@ -276,10 +385,14 @@ def e2e_cases(run, binary, tmp, tier, placements=None, tag=''):
         got = e2e.snapshot(os.path.join(base, 'dest'))
         srcnow = e2e.snapshot(os.path.join(base, 'src'))
         run.count('e2e:' + placement)
-        run.count('e2e:files', len(ls))
-        run.case(('e2e', placement, tuple(ls)), True, sample={'driver': 'e2e', 'placement': placement, 'lengths': ls, 'exit': r['exit']})
+        run.count('e2e:files', len(items))
+        for _, fam, _ in items:
+            run.count('e2e:content=' + fam.split('@')[0])
+        run.case(('e2e', placement, tuple((n, fam) for n, fam, _ in items)), True,
+                 sample={'driver': 'e2e', 'placement': placement, 'lengths': ls, 'zero_families': sorted(set(f for _, f, _ in items if f != 'random'))[:12], 'exit': r['exit']})
         run.traces_validated += 1
-        rep = {'driver': 'e2e', 'placement': placement, 'lengths': ls, 'exit': r['exit'], 'stderr': r['stderr'][-1500:], 'stdout': r['stdout'][-800:]}
+        rep = {'driver': 'e2e', 'placement': placement, 'lengths': ls, 'files': [[n, fam] for n, fam, _ in items], 'exit': r['exit'],
+               'stderr': r['stderr'][-1500:], 'stdout': r['stdout'][-800:]}
         if r['timed_out'] or r['exit'] != 0:
             # nobody touched the source, so a failure to copy is a failure to transfer the contents
             run.fail('C11 e2e %s: sync of an unchanging tree did not succeed (exit %s, timed out %s)' % (placement, r['exit'], r['timed_out']), rep)
@@ -305,6 +418,9 @@ def setup(run):
                          'and random lengths up to 9 MiB); scripted relay: for each actual size from the boundary set every listed size in '
                          '{chunk prefix sums, +-1, actual+-1, +4096, 0, 2x} x previous destination {absent, shorter, longer, equal}, random partitions, '
                          'hang-ups; e2e: real CLI local and through the fake ssh with previous destinations absent/shorter/longer/equal. '
+                         'Contents: seeded random bytes, and in every leg files with runs of zero bytes (all-zero, random prefix + zero tail, zero prefix + '
+                         'random tail, zero run in the middle; cuts at and one off every chunk boundary and inside the last chunk; zero-extended 1 MiB + 1, '
+                         'sparse 5 MiB) for the sizes around the ladder sums, relayed over every kind of previous destination, also as short-read style partitions. '
                          'Every case is non-trivial (a file is read or relayed); distinct by (length, content hash) / (listed, chunks, previous) / (placement, lengths)')
     binary = vlib.build_impl()
     vlib.regen_facts(binary)
@@ -325,6 +441,7 @@ def check(run):
         # (a)
         lengths = cl.boundary_lengths()
         run_chunk_cases(run, binary, jbin, tmp, chunk_items(run, tier, lengths), 'boundary')
+        run_chunk_cases(run, binary, jbin, tmp, zero_chunk_items(run, tier), 'zero-runs')
         if tier == 'thorough':
             step = 2500
             for lo in range(0, 70001, step):
@@ -335,6 +452,7 @@ def check(run):
         run_fifo_cases(run, binary, jbin, tmp, fifo_write_lists(run, tier))
         # (b)
         run_relay_cases(run, binary, jbin, tmp, gen_relay_cases(run, tier))
+        run_relay_cases(run, binary, jbin, tmp, gen_zero_relay_cases(run, tier), label='relayz')
         # (c)
         e2e_cases(run, binary, tmp, tier)
 
@@ -344,11 +462,13 @@ def check(run):
             sub = vlib.Run(run.prop, 'thorough', run.seed + 1)
             run_relay_cases(sub, binary, jbin, tmp, gen_relay_cases(sub, 'quick', extended=True), label='search')
             if not sub.prop_failures:
+                run_relay_cases(sub, binary, jbin, tmp, gen_zero_relay_cases(sub, 'quick', extended=True), label='searchz')
+            if not sub.prop_failures:
                 ls = sorted(set(sub.rng.randrange(0, 200000) for _ in range(400)))
                 run_chunk_cases(sub, binary, jbin, tmp, chunk_items(sub, 'quick', ls), 'search')
             if not sub.prop_failures:
                 # a file long enough to contain the largest chunks, through the real encrypted link (frame buffers)
-                e2e_cases(sub, binary, tmp, 'quick', placements=[('RR', [20 * 1024 * 1024 + 1, 4096])], tag='search_')
+                e2e_cases(sub, binary, tmp, 'quick', placements=[('RR', [20 * 1024 * 1024 + 1, 4096])], tag='search_', zero_families=False)
             return sub.prop_failures[0] if sub.prop_failures else None
         return run.finish(search=search)
     finally:
